@@ -41,6 +41,10 @@ type Step struct {
 	I    int
 	// Multi: the call returns more than one result (only the first is followed).
 	Multi bool
+	// Assert: the value this step is applied to is held in an interface that
+	// does not offer the step (a field, an index, a method of the dynamic type
+	// only); Assert is the dynamic type to assert to in Go source.
+	Assert string
 }
 
 // Action is a path from a root value to one niladic method call. It is plain
@@ -64,6 +68,11 @@ type Action struct {
 	ListResult bool
 	// NonEmpty: that list result had at least one element at discovery time.
 	NonEmpty bool
+	// Reflective: the path passes through an interface whose dynamic type is
+	// unexported and uses a member the interface does not offer (e.g. an exported
+	// field of an unexported option type): only reflection can follow it
+	// literally, GoExpr does not compile for it.
+	Reflective bool
 }
 
 // GoExpr renders the path as a compilable Go expression on variable v. A call
@@ -76,10 +85,19 @@ func (a Action) GoExpr(v string) string {
 	for k, s := range a.Steps {
 		switch s.Kind {
 		case Field:
+			if s.Assert != "" {
+				e += ".(" + s.Assert + ")"
+			}
 			e += "." + s.Name
 		case Index:
+			if s.Assert != "" {
+				e += ".(" + s.Assert + ")"
+			}
 			e += "[" + strconv.Itoa(s.I) + "]"
 		case Call:
+			if s.Assert != "" {
+				e += ".(" + s.Assert + ")"
+			}
 			e += "." + s.Name + "()"
 			if s.Multi && k < len(a.Steps)-1 {
 				e = "first(" + e + ")"
@@ -276,9 +294,49 @@ func isList(c Config, v reflect.Value) (list, nonEmpty bool) {
 	return false, false
 }
 
-func (w *walker) walk(cur reflect.Value, steps []Step, calls, nonCall int, via string, skipMethods bool) {
+// nameable: the type can be written in Go source outside its package.
+func nameable(t reflect.Type) bool {
+	for t.Kind() == reflect.Ptr {
+		t = t.Elem()
+	}
+	n := t.Name()
+	return n != "" && t.PkgPath() != "" && n[0] >= 'A' && n[0] <= 'Z'
+}
+
+func (w *walker) walk(cur reflect.Value, steps []Step, calls, nonCall int, via string, skipMethods, refl bool) {
 	if !cur.IsValid() {
 		return
+	}
+	// how a step on cur is written in source: through an assertion when cur is an interface value
+	// (or the root, whose static type the caller may only know as an interface)
+	iface := cur.Kind() == reflect.Interface && !cur.IsNil()
+	var ifaceT, dynT reflect.Type
+	if iface {
+		ifaceT, dynT = cur.Type(), cur.Elem().Type()
+	}
+	if len(steps) == 0 && !nameable(cur.Type()) {
+		// root of an unexported type: the caller holds it as the library interface it was returned as;
+		// only String/ToBytes/Code are assumed to be offered
+		iface, ifaceT, dynT = true, nil, cur.Type()
+	}
+	// need returns the assertion for a step and whether the path stays expressible
+	need := func(kind StepKind, name string) (string, bool) {
+		if !iface {
+			return "", true
+		}
+		if kind == Call {
+			if ifaceT != nil {
+				if _, ok := ifaceT.MethodByName(name); ok {
+					return "", true
+				}
+			} else if name == "String" || name == "ToBytes" || name == "Code" {
+				return "", true
+			}
+		}
+		if nameable(dynT) {
+			return dynT.String(), true
+		}
+		return "", false
 	}
 	limit := w.cfg.PreSteps
 	if calls > 0 {
@@ -292,8 +350,9 @@ func (w *walker) walk(cur reflect.Value, steps []Step, calls, nonCall int, via s
 			if m.PkgPath != "" || m.Type.NumIn() != 1 || m.Type.NumOut() < 1 || !ReadOnlyName(m.Name) {
 				continue
 			}
-			st := append(append([]Step{}, steps...), Step{Kind: Call, Name: m.Name, Multi: m.Type.NumOut() > 1})
-			a := Action{Steps: st, Expr: exprOf(st), Method: TypeName(t) + "." + m.Name, Via: via, Calls: calls + 1}
+			as, expressible := need(Call, m.Name)
+			st := append(append([]Step{}, steps...), Step{Kind: Call, Name: m.Name, Multi: m.Type.NumOut() > 1, Assert: as})
+			a := Action{Steps: st, Expr: exprOf(st), Method: TypeName(t) + "." + m.Name, Via: via, Calls: calls + 1, Reflective: refl || !expressible}
 			if w.seen[a.Expr] {
 				continue
 			}
@@ -314,7 +373,7 @@ func (w *walker) walk(cur reflect.Value, steps []Step, calls, nonCall int, via s
 				if first == "" {
 					first = a.Method
 				}
-				w.walk(res[0], st, calls+1, 0, first, false)
+				w.walk(res[0], st, calls+1, 0, first, false, a.Reflective)
 			}
 		}
 	}
@@ -340,16 +399,18 @@ func (w *walker) walk(cur reflect.Value, steps []Step, calls, nonCall int, via s
 			if nonCall+cost > limit {
 				continue
 			}
-			st := append(append([]Step{}, steps...), Step{Kind: Field, Name: f.Name})
-			w.walk(u.Field(i), st, calls, nonCall+cost, via, f.Anonymous)
+			as, expressible := need(Field, f.Name)
+			st := append(append([]Step{}, steps...), Step{Kind: Field, Name: f.Name, Assert: as})
+			w.walk(u.Field(i), st, calls, nonCall+cost, via, f.Anonymous, refl || !expressible)
 		}
 	case reflect.Slice, reflect.Array:
 		if nonCall+1 > limit || !w.cfg.mayHoldLib(u.Type().Elem(), 0) {
 			return
 		}
 		for _, i := range w.cfg.indices(u.Len()) {
-			st := append(append([]Step{}, steps...), Step{Kind: Index, I: i})
-			w.walk(u.Index(i), st, calls, nonCall+1, via, false)
+			as, expressible := need(Index, "")
+			st := append(append([]Step{}, steps...), Step{Kind: Index, I: i, Assert: as})
+			w.walk(u.Index(i), st, calls, nonCall+1, via, false, refl || !expressible)
 		}
 	}
 }
@@ -358,7 +419,7 @@ func (w *walker) walk(cur reflect.Value, steps []Step, calls, nonCall int, via s
 // they return), so hand it a value that is thrown away afterwards.
 func Discover(v any, cfg Config) []Action {
 	w := &walker{cfg: cfg, seen: map[string]bool{}}
-	w.walk(root(v), nil, 0, 0, "", false)
+	w.walk(root(v), nil, 0, 0, "", false, false)
 	return w.out
 }
 
